@@ -146,6 +146,12 @@ def main(argv=None):
         seen.add(cid)
         c["_cid"] = cid
         cases.append(c)
+    only = os.environ.get("VERIF_ONLY_CLS")
+    if only:
+        # development aid: run only the cases whose class matches; never writes evidence
+        import re
+        cases = [c for c in cases if re.search(only, str(c.get("cls", "")))]
+        args.no_evidence = True
     kf = findings.for_property(pid)
     wit = []
     for f in kf:
